@@ -56,6 +56,10 @@ type c19Case struct {
 	GlobalThr   int      `json:"global_threshold"` // 0 = none
 	MergeCommit bool     `json:"merge_commit"`
 	Candidate   string   `json:"candidate,omitempty"`
+	// TouchEach: every feature commit changes the protected path (not only the
+	// first), and the commits' ids ascend in creation order (commits of a range are
+	// inspected in id order)
+	TouchEach bool `json:"touch_each,omitempty"`
 }
 
 func c19Gen(r *rand.Rand) c19Case {
@@ -151,8 +155,17 @@ func c19Judge(c *fw.Ctx, cs c19Case) {
 		if cs.TouchProt && i == 0 {
 			files["src/a.go"] = "package a // changed"
 		}
-		files[fmt.Sprintf("docs/f%d.md", i)] = fmt.Sprint(i)
+		if cs.TouchEach {
+			files["src/a.go"] = fmt.Sprintf("package a // changed by commit %d", i)
+		}
+		if !cs.TouchEach {
+			// (with TouchEach a commit changes nothing but the protected path)
+			files[fmt.Sprintf("docs/f%d.md", i)] = fmt.Sprint(i)
+		}
 		cm, err := g.CommitFiles(files, []githash.Hash{tip}, fmt.Sprintf("feature %d", i), keys.Get(by))
+		for try := 0; cs.TouchEach && i > 0 && err == nil && try < 16 && cm.String() < tip.String(); try++ {
+			cm, err = g.CommitFiles(files, []githash.Hash{tip}, fmt.Sprintf("feature %d (%d)", i, try), keys.Get(by))
+		}
 		if err != nil {
 			c.Inconclusive("feature commit")
 			return
@@ -295,7 +308,11 @@ func c19Judge(c *fw.Ctx, cs c19Case) {
 				case trusted[cand]:
 					class = "authorized-not-counted"
 				}
-				c.Violation("prediction-disagrees-with-verification", map[string]string{"prediction": prediction, "candidate": class, "verified": fmt.Sprint(accepted), "rule_threshold_is_one": fmt.Sprint(cs.Threshold == 1)},
+				attrs := map[string]string{"prediction": prediction, "candidate": class, "verified": fmt.Sprint(accepted), "rule_threshold_is_one": fmt.Sprint(cs.Threshold == 1)}
+				if cs.Threshold != 1 {
+					attrs["global_threshold_set"] = fmt.Sprint(cs.GlobalThr > 0)
+				}
+				c.Violation("prediction-disagrees-with-verification", attrs,
 					fmt.Sprintf("VerifyMergeable said %s (err=%v); merge recorded by %q (%s) verifies=%v (%v)", prediction, perr, cand, class, accepted, verr), cc)
 			} else {
 				c.Count("agree:"+prediction, 1)
@@ -325,11 +342,11 @@ func runC19(c *fw.Ctx) {
 		{Trusted: all, Threshold: 2, AuthSigners: []string{"k1", "k2"}, GlobalThr: 3, FeatureBy: []string{"k1"}},
 		{Trusted: all, Threshold: 1, AuthSigners: []string{"k1"}, GlobalThr: 2, FeatureBy: []string{"k2"}, MergeCommit: true},
 		{Trusted: all, Threshold: 2, AuthSigners: []string{"k1", "k2"}, GlobalThr: 2, FeatureBy: []string{"k1"}},
-		{Trusted: all, Threshold: 1, AuthSigners: []string{"k2"}, FileRule: true, TouchProt: true, FeatureBy: []string{"k1", "kx"}},
-		{Trusted: all, Threshold: 1, AuthSigners: []string{"k2"}, FileRule: true, TouchProt: true, FeatureBy: []string{"kx", "k1"}},
-		{Trusted: all, Threshold: 1, AuthSigners: []string{"k2"}, FileRule: true, TouchProt: true, FeatureBy: []string{"k1", "kx", "k1"}, MergeCommit: true},
-		{Trusted: all, Threshold: 1, AuthSigners: []string{"k2"}, FileRule: true, TouchProt: true, FeatureBy: []string{"k1", "k1", "kx"}},
-		{Trusted: all, Threshold: 1, AuthSigners: []string{"k2"}, FileRule: true, TouchProt: true, FeatureBy: []string{"kx", "k1", "kx"}},
+		{Trusted: all, Threshold: 1, AuthSigners: []string{"k2"}, FileRule: true, TouchProt: true, TouchEach: true, FeatureBy: []string{"k1", "kx"}},
+		{Trusted: all, Threshold: 1, AuthSigners: []string{"k2"}, FileRule: true, TouchProt: true, TouchEach: true, FeatureBy: []string{"kx", "k1"}},
+		{Trusted: all, Threshold: 1, AuthSigners: []string{"k2"}, FileRule: true, TouchProt: true, TouchEach: true, FeatureBy: []string{"k1", "kx", "k1"}, MergeCommit: true},
+		{Trusted: all, Threshold: 1, AuthSigners: []string{"k2"}, FileRule: true, TouchProt: true, TouchEach: true, FeatureBy: []string{"k1", "k1", "kx"}},
+		{Trusted: all, Threshold: 1, AuthSigners: []string{"k2"}, FileRule: true, TouchProt: true, TouchEach: true, FeatureBy: []string{"kx", "k1", "kx"}},
 	}
 	for i, cs := range directed {
 		if c.Mine(i) {
